@@ -18,6 +18,12 @@ def main():
     result = {}
     try:
         boot.import_liquer()
+        from lqv.mon import fence
+
+        scratch = spec.get("scratch") or os.path.dirname(out_path)
+        fence.install([scratch])
+        if not fence.self_test(scratch):
+            raise RuntimeError("scratch fence does not block: refusing to run")
         import importlib
 
         mod = importlib.import_module("lqv.checks." + prop.lower())
